@@ -76,6 +76,7 @@ static SchedStats g_stats;
 static Rng g_srng;
 static size_t g_script_pos = 0;
 static std::vector<Switch> *g_rec = nullptr;
+static void (*g_switch_hook)() = nullptr;
 static TaskBody g_body = nullptr;
 static void *g_body_arg = nullptr;
 
@@ -98,6 +99,7 @@ void sched_configure(const SchedConfig &cfg) {
 }
 const SchedStats &sched_stats() { return g_stats; }
 void sched_reset_stats() { g_stats = SchedStats(); }
+void sched_set_switch_hook(void (*hook)()) { g_switch_hook = hook; }
 int sched_current_task() { return g_in_phase ? g_slot[t_slot].task_id : 0; }
 bool sched_in_phase() { return g_in_phase != 0; }
 
@@ -151,6 +153,7 @@ void sched_yield_point(int site) {
 	int next = decide(site, false);
 	if (next == me || next == 0) return;
 	g_cur = next;
+	if (g_switch_hook) g_switch_hook();
 	grant(next);
 	park(me);
 }
@@ -166,6 +169,7 @@ static void *thread_main(void *arg) {
 	g_slot[slot].finished = 1;
 	int next = decide(SITE_TASK_END, true);
 	g_cur = next;
+	if (g_switch_hook) g_switch_hook();
 	grant(next);
 	// stay parked until the phase is over: thread exit (TLS destructors, malloc arena hand-back inside glibc)
 	// must not overlap in real time with whoever runs next; main releases finished threads one at a time
